@@ -48,12 +48,56 @@ fn parity_router(hits: Arc<AtomicUsize>) -> repe::Router {
     repe::Router::new()
         .with_erased_handler("/own", Arc::new(OwnQuery(hits)))
         .with_json("/echo", |v: Value| Ok(v))
+        .with_json_blocking("/blk", |v: Value| Ok(json!({"blk": v})))
         .with_json("/fail", |_v: Value| -> Result<Value, (repe::ErrorCode, String)> { Err((repe::ErrorCode::ApplicationErrorBase, "nope".into())) })
 }
-const PARITY_REQS: [(u64, &str, bool); 7] =
-    [(1, "/own", false), (2, "/echo", false), (3, "/missing", false), (4, "/own", false), (5, "/fail", false), (6, "/echo", true), (7, "/own", false)];
+const PARITY_REQS: [(u64, &str, bool); 10] = [
+    (1, "/own", false), (2, "/echo", false), (3, "/missing", false), (4, "/own", false), (5, "/fail", false), (6, "/echo", true), (7, "/own", false),
+    (8, "/rawq", false), (9, "/blk", false), (10, "/deep/missing/path", false),
+];
 fn parity_request(id: u64, path: &str, notify: bool) -> repe::Message {
-    repe::Message::builder().id(id).notify(notify).query_str(path).query_format(repe::QueryFormat::JsonPointer).body_json(&json!({ "n": id })).unwrap().build()
+    // "/rawq": a request whose query is not a JSON pointer (rejected with InvalidQuery, query echoed)
+    let qf = if path == "/rawq" { repe::QueryFormat::RawBinary } else { repe::QueryFormat::JsonPointer };
+    repe::Message::builder().id(id).notify(notify).query_str(path).query_format(qf).body_json(&json!({ "n": id })).unwrap().build()
+}
+async fn parity_ws(router: repe::Router) -> Result<Vec<repe::Message>, String> {
+    use futures_util::{SinkExt, StreamExt};
+    use repe::tokio_tungstenite::tungstenite::Message as WsMessage;
+    let listener = tokio::net::TcpListener::bind("127.0.0.1:0").await.map_err(|e| e.to_string())?;
+    let addr = listener.local_addr().unwrap();
+    let shared = repe::WebSocketServer::new(router).into_shared();
+    let srv = tokio::spawn(async move {
+        loop {
+            let Ok((stream, _)) = listener.accept().await else { break };
+            let shared = shared.clone();
+            tokio::spawn(async move {
+                if let Ok(ws) = repe::WebSocketServer::accept(stream, "/repe").await {
+                    let _ = shared.serve_connection(ws).await;
+                }
+            });
+        }
+    });
+    let (mut ws, _) = repe::tokio_tungstenite::connect_async(format!("ws://{addr}/repe")).await.map_err(|e| e.to_string())?;
+    let mut out = Vec::new();
+    for (id, path, notify) in PARITY_REQS {
+        ws.send(WsMessage::Binary(parity_request(id, path, notify).to_vec().into())).await.map_err(|e| e.to_string())?;
+        if notify {
+            continue;
+        }
+        loop {
+            let frame = tokio::time::timeout(Duration::from_secs(30), ws.next())
+                .await
+                .map_err(|_| format!("WebSocket: no response to request {id} within 30 s"))?
+                .ok_or_else(|| format!("WebSocket: connection closed before the response to request {id}"))?
+                .map_err(|e| e.to_string())?;
+            if let WsMessage::Binary(bytes) = frame {
+                out.push(repe::Message::from_slice_exact(&bytes).map_err(|e| format!("WebSocket: response to request {id} is not one well-formed frame: {e}"))?);
+                break;
+            }
+        }
+    }
+    srv.abort();
+    Ok(out)
 }
 fn fields(m: &repe::Message) -> (u64, u32, u16, u16, Vec<u8>, Vec<u8>) {
     (m.header.id, m.header.ec, m.header.query_format, m.header.body_format, m.query.clone(), m.body.clone())
@@ -98,7 +142,7 @@ fn parity_blocking(router: repe::Router) -> Result<Vec<repe::Message>, String> {
     Ok(out)
 }
 async fn server_query_parity() -> Result<String, String> {
-    let hits: Vec<Arc<AtomicUsize>> = (0..4).map(|_| Arc::new(AtomicUsize::new(0))).collect();
+    let hits: Vec<Arc<AtomicUsize>> = (0..5).map(|_| Arc::new(AtomicUsize::new(0))).collect();
     let plain = parity_async(repe::AsyncServer::new(parity_router(hits[0].clone()))).await?;
     let with_w = parity_async(repe::AsyncServer::new(parity_router(hits[1].clone())).write_timeout(Some(Duration::from_secs(10)))).await?;
     let with_rw = parity_async(
@@ -107,13 +151,14 @@ async fn server_query_parity() -> Result<String, String> {
     .await?;
     let r = parity_router(hits[3].clone());
     let blocking = tokio::task::spawn_blocking(move || parity_blocking(r)).await.unwrap()?;
-    let expect_q: [&[u8]; 6] = [b"/chosen/by-handler", b"/echo", b"/missing", b"/chosen/by-handler", b"/fail", b"/chosen/by-handler"];
-    let expect_id = [1u64, 2, 3, 4, 5, 7];
-    for (name, got) in [("async", &plain), ("async+write_timeout", &with_w), ("async+read+write_timeout", &with_rw), ("blocking", &blocking)] {
-        if got.len() != 6 {
-            return Err(format!("{name}: {} responses to 6 requests and one notify", got.len()));
+    let ws = parity_ws(parity_router(hits[4].clone())).await?;
+    let expect_q: [&[u8]; 9] = [b"/chosen/by-handler", b"/echo", b"/missing", b"/chosen/by-handler", b"/fail", b"/chosen/by-handler", b"/rawq", b"/blk", b"/deep/missing/path"];
+    let expect_id = [1u64, 2, 3, 4, 5, 7, 8, 9, 10];
+    for (name, got) in [("async", &plain), ("async+write_timeout", &with_w), ("async+read+write_timeout", &with_rw), ("blocking", &blocking), ("WebSocket", &ws)] {
+        if got.len() != 9 {
+            return Err(format!("{name}: {} responses to 9 requests and one notify", got.len()));
         }
-        for i in 0..6 {
+        for i in 0..9 {
             if got[i].header.id != expect_id[i] {
                 return Err(format!("{name}: response {i} carries id {} (expected {})", got[i].header.id, expect_id[i]));
             }
@@ -130,8 +175,11 @@ async fn server_query_parity() -> Result<String, String> {
             return Err(format!("{name}: unknown path answered with ec {}", got[2].header.ec));
         }
     }
-    for i in 0..6 {
-        for (name, got) in [("async", &plain), ("async+write_timeout", &with_w), ("async+read+write_timeout", &with_rw)] {
+    if ws[6].header.ec != repe::ErrorCode::InvalidQuery as u32 {
+        return Err(format!("a query that is not a JSON pointer was answered with ec {}", ws[6].header.ec));
+    }
+    for i in 0..9 {
+        for (name, got) in [("async", &plain), ("async+write_timeout", &with_w), ("async+read+write_timeout", &with_rw), ("WebSocket", &ws)] {
             if fields(&got[i]) != fields(&blocking[i]) {
                 return Err(format!("response {i} differs between {name} and blocking TCP: {:?} vs {:?}", fields(&got[i]), fields(&blocking[i])));
             }
@@ -142,7 +190,7 @@ async fn server_query_parity() -> Result<String, String> {
             return Err(format!("the /own handler ran {} times for 3 requests", h.load(Ordering::SeqCst)));
         }
     }
-    Ok("6 responses identical on 4 server configurations".into())
+    Ok("9 responses identical on 5 server configurations (blocking TCP, async TCP x3, WebSocket inline and off-reader)".into())
 }
 
 // ---------------------------------------------------------------------------------------------
